@@ -22,3 +22,26 @@ pub fn catch_unwind_stub<F: FnOnce() -> R + UnwindSafe, R>(f: F) -> Result<R, Bo
 pub fn mcb_write_err_stub<E>(_e: E) -> pallas_codec::minicbor::encode::Error<E> {
     pallas_codec::minicbor::encode::Error::message("write")
 }
+
+/// Model of `<&[u8] as Read>::read_exact` (what `Cursor<&[u8]>::read_exact` delegates to) for the
+/// round-trip harnesses (C18): same effect on the Ok path (copy, advance); running past the end is a
+/// *reported failure* (panic) instead of an `Err(io::Error)` value, because dropping an `io::Error`
+/// (what `map_err(|_| ..)` in varuint::read does) unrolls a recursive `dyn Error` drop glue that
+/// dominates the formula. Not usable for totality harnesses (C09).
+pub fn slice_read_exact_model<'a>(s: &mut &'a [u8], buf: &mut [u8]) -> std::io::Result<()>
+where
+    'a: 'a,
+{
+    if buf.len() > s.len() {
+        panic!("model: read_exact past the end of the buffer");
+    }
+    let n = buf.len();
+    let mut i = 0;
+    while i < n {
+        buf[i] = s[i];
+        i += 1;
+    }
+    let rest: &'a [u8] = &(*s)[n..];
+    *s = rest;
+    Ok(())
+}
